@@ -29,12 +29,20 @@ pub enum Ctx {
     MatchArm,
     If,
     Operand,
+    /// the payload sits in a block that is the CONDITION of a while loop (not in the loop's body)
+    WhileCond,
+    /// ... in a block that is the iterable of a for loop
+    ForIter,
+    /// ... in a block that is the condition of an if
+    IfCond,
+    /// ... in a block that is the scrutinee of a match
+    Scrutinee,
 }
 use Ctx::*;
 /// contexts allowed as the outermost element
-const FIRST: [Ctx; 9] = [Fn, Member, Lambda, Task, While, For, MatchArm, If, Operand];
+const FIRST: [Ctx; 13] = [Fn, Member, Lambda, Task, While, For, MatchArm, If, Operand, WhileCond, ForIter, IfCond, Scrutinee];
 /// contexts allowed below another context (fn / extend cannot be nested: parse error)
-const INNER: [Ctx; 7] = [Lambda, Task, While, For, MatchArm, If, Operand];
+const INNER: [Ctx; 11] = [Lambda, Task, While, For, MatchArm, If, Operand, WhileCond, ForIter, IfCond, Scrutinee];
 
 impl Ctx {
     fn name(self) -> &'static str {
@@ -48,6 +56,10 @@ impl Ctx {
             MatchArm => "arm",
             If => "if",
             Operand => "operand",
+            WhileCond => "while-cond",
+            ForIter => "for-iter",
+            IfCond => "if-cond",
+            Scrutinee => "scrutinee",
         }
     }
     fn has_param(self) -> bool {
@@ -247,13 +259,13 @@ pub fn closed_form(k: usize) -> u64 {
     let v = VARPK.len() as u64;
     let mut total = p + v; // empty chain: level 0 only
     for n in 1..=k as u32 {
-        let chains = 9 * 7u64.pow(n - 1);
+        let chains = 13 * 11u64.pow(n - 1);
         total += chains * (p + v * (n as u64 + 1));
         // binders: first position has 5 binding contexts of 9 (fn, member, lambda, for, arm)
-        total += 5 * 7u64.pow(n - 1);
+        total += 5 * 11u64.pow(n - 1);
         // every later position has 3 binding contexts of 7 (lambda, for, arm)
         if n >= 2 {
-            total += (n as u64 - 1) * 9 * 3 * 7u64.pow(n - 2);
+            total += (n as u64 - 1) * 13 * 3 * 11u64.pow(n - 2);
         }
     }
     total
@@ -304,6 +316,10 @@ fn body(chain: &[Ctx], lvl: usize, p: &Payload) -> String {
         MatchArm => format!("match option.some({l}) {{\n.some(b{l}) -> {{\n{b}\nnil\n}}\n.none -> nil\n}}"),
         If => format!("if true {{\n{b}\nnil\n}}"),
         Operand => format!("let t{l} = 1 + {{\n{b}\n2\n}}"),
+        WhileCond => format!("var w{l} = 0\nwhile {{\n{b}\nw{l} += 1\nw{l} < 2\n}} {{\nnil\n}}"),
+        ForIter => format!("for l{l} in {{\n{b}\n[1]\n}} {{\nnil\n}}"),
+        IfCond => format!("if {{\n{b}\ntrue\n}} {{\nnil\n}}"),
+        Scrutinee => format!("match {{\n{b}\n1\n}} {{\n_ -> nil\n}}"),
     };
     s.push_str(&w);
     s
